@@ -412,3 +412,132 @@ pub mod c07 {
         header_case_insensitive::<17>("Transfer-Encoding", HeaderType::TransferEncoding);
     }
 }
+
+pub mod c09 {
+    use crate::http::headers::Headers;
+    use crate::http::method::Method;
+    use crate::http::proxy::proxy_request;
+    use crate::http::response::ResponseError;
+    use crate::http::{Request, Response, StatusCode};
+    use std::net::{IpAddr, Ipv4Addr, SocketAddr, TcpStream};
+    use std::time::Duration;
+
+    /// Ghost record of what proxy_request did to the upstream socket (scalars only, see kani/in_ws.rs ghost notes).
+    pub struct G {
+        pub connect_ok: bool,
+        pub write_ok: bool,
+        pub parse_ok: bool,
+        pub connected: bool,
+        pub written: bool,
+        pub read_started: bool,
+        pub read_timeout_set_before_read: bool,
+        pub read_timeout_secs: u64,
+        pub write_timeout_set_before_write: bool,
+        pub marker: u16,
+    }
+    pub static mut GH: G = G { connect_ok: false, write_ok: false, parse_ok: false, connected: false, written: false, read_started: false,
+        read_timeout_set_before_read: false, read_timeout_secs: 0, write_timeout_set_before_write: false, marker: 0 };
+    pub fn g() -> &'static mut G { unsafe { &mut *std::ptr::addr_of_mut!(GH) } }
+
+    pub fn stub_connect(_addr: &SocketAddr, _timeout: Duration) -> std::io::Result<TcpStream> {
+        use std::os::unix::io::FromRawFd;
+        if g().connect_ok {
+            g().connected = true;
+            Ok(unsafe { TcpStream::from_raw_fd(3) })
+        } else {
+            Err(std::io::Error::from(std::io::ErrorKind::ConnectionRefused))
+        }
+    }
+    pub fn stub_write(_s: &mut TcpStream, buf: &[u8]) -> std::io::Result<usize> {
+        assert!(g().connected, "write only after connect");
+        if g().write_ok { g().written = true; Ok(buf.len()) } else { Err(std::io::Error::from(std::io::ErrorKind::BrokenPipe)) }
+    }
+    pub fn stub_set_read_timeout(_s: &TcpStream, dur: Option<Duration>) -> std::io::Result<()> {
+        if let Some(d) = dur {
+            if !g().read_started { g().read_timeout_set_before_read = true; g().read_timeout_secs = d.as_secs(); }
+        }
+        Ok(())
+    }
+    pub fn stub_set_write_timeout(_s: &TcpStream, dur: Option<Duration>) -> std::io::Result<()> {
+        if dur.is_some() && !g().written { g().write_timeout_set_before_write = true; }
+        Ok(())
+    }
+    /// Contract of Response::from_stream as far as proxy_request relies on it: returns Ok(any response) or Err(any error).
+    /// (That it *returns* for every byte stream is C03's HTTP-parser part, which this machinery cannot decide.)
+    pub fn stub_response_from_stream<T: std::io::Read>(_stream: &mut T) -> Result<Response, ResponseError> {
+        g().read_started = true;
+        if g().parse_ok {
+            let mut r = Response::empty(StatusCode::OK);
+            // a recognisable upstream response: status + body chosen by the harness
+            r.status_code = match StatusCode::try_from_marker(g().marker) { Some(s) => s, None => StatusCode::OK };
+            r.body = vec![(g().marker & 0xff) as u8, (g().marker >> 8) as u8];
+            Ok(r)
+        } else if g().marker & 1 == 0 { Err(ResponseError::Stream) } else { Err(ResponseError::Response) }
+    }
+    pub fn stub_format(_args: std::fmt::Arguments<'_>) -> String { String::new() }
+    pub fn stub_ip_fmt(_ip: &IpAddr, _f: &mut std::fmt::Formatter<'_>) -> std::fmt::Result { Ok(()) }
+    pub fn stub_close(_fd: i32) -> i32 { 0 }
+
+    trait Marker { fn try_from_marker(m: u16) -> Option<StatusCode>; }
+    impl Marker for StatusCode {
+        fn try_from_marker(m: u16) -> Option<StatusCode> {
+            match m % 5 { 0 => Some(StatusCode::OK), 1 => Some(StatusCode::NotFound), 2 => Some(StatusCode::InternalError), 3 => Some(StatusCode::MovedPermanently), _ => Some(StatusCode::Continue) }
+        }
+    }
+
+    fn request() -> Request {
+        Request {
+            method: Method::Get,
+            uri: String::new(),
+            query: String::new(),
+            version: String::new(),
+            headers: Headers::new(),
+            content: None,
+            address: crate::http::address::Address { origin_addr: IpAddr::V4(Ipv4Addr::new(10, 0, 0, 1)), proxies: Vec::new(), port: 1 },
+        }
+    }
+
+    #[kani::proof]
+    #[kani::unwind(6)]
+    #[kani::stub(std::net::TcpStream::connect_timeout, stub_connect)]
+    #[kani::stub(<std::net::TcpStream as std::io::Write>::write, stub_write)]
+    #[kani::stub(std::net::TcpStream::set_read_timeout, stub_set_read_timeout)]
+    #[kani::stub(std::net::TcpStream::set_write_timeout, stub_set_write_timeout)]
+    #[kani::stub(crate::http::Response::from_stream, stub_response_from_stream)]
+    #[kani::stub(alloc::fmt::format, stub_format)]
+    #[kani::stub(<std::net::IpAddr as std::fmt::Display>::fmt, stub_ip_fmt)]
+    #[kani::stub(libc::close, stub_close)]
+    pub fn c09_proxy_request_contract() {
+        let gh = g();
+        gh.connect_ok = kani::any();
+        gh.write_ok = kani::any();
+        gh.parse_ok = kani::any();
+        gh.marker = kani::any();
+        gh.connected = false; gh.written = false; gh.read_started = false;
+        gh.read_timeout_set_before_read = false; gh.write_timeout_set_before_write = false; gh.read_timeout_secs = 0;
+        let secs: u64 = kani::any();
+        kani::assume(secs >= 1 && secs <= 3600);
+        let req = request();
+        let target = SocketAddr::new(IpAddr::V4(Ipv4Addr::new(127, 0, 0, 1)), 8080);
+        let resp = proxy_request(&req, target, Duration::from_secs(secs));
+        // always answers (reaching this line for every outcome is the "never panics" half, relative to the callee contracts)
+        if gh.connect_ok && gh.write_ok && gh.parse_ok {
+            let m = gh.marker;
+            assert!(resp.status_code == StatusCode::try_from_marker(m).unwrap(), "upstream's status is passed through");
+            assert!(resp.body.len() == 2 && resp.body[0] == (m & 0xff) as u8 && resp.body[1] == (m >> 8) as u8, "upstream's body is passed through");
+            kani::cover!(resp.status_code == StatusCode::NotFound, "an upstream 404 was passed through");
+        } else {
+            assert!(resp.status_code == StatusCode::BadGateway, "refused / failed write / unparsable answer => 502 Bad Gateway");
+            assert!(resp.body == b"<html><body><h1>502 Bad Gateway</h1></body></html>".to_vec(), "fixed 502 body");
+            assert!(gh.connect_ok || !gh.written, "nothing is written without a connection");
+            kani::cover!(!gh.connect_ok, "connection refused path");
+        }
+        if gh.read_started {
+            assert!(gh.read_timeout_set_before_read && gh.read_timeout_secs <= secs,
+                "a read timeout no longer than the configured timeout is set on the upstream socket before the response is read");
+        }
+        if gh.written {
+            assert!(gh.write_timeout_set_before_write, "a write timeout is set on the upstream socket before the request is written");
+        }
+    }
+}
